@@ -7,6 +7,8 @@
  d  RF12 every non-const call on a shared object inside a parallel region is a reviewed thread-safe entry point
  e  RF2  file/buffer accesses of the two ProjData back-ends are inside their named critical section
  f  RF6  the scatter-integral cache is read/written atomically and only through its two accessors
+ g  RF2  the append-only detection-point table never reallocates while in use: reserve(total_detectors) after every reset,
+         appends inside the critical section and capped at that size
 """
 import re
 
@@ -65,6 +67,7 @@ def requests():
     r += [
         Request("src/buildblock/ProjDataFromStream.cxx", fn=["stir::ProjDataFromStream::.*"], config="openmp"),
         Request("src/buildblock/ProjDataInMemory.cxx", fn=["stir::ProjDataInMemory::.*", "stir::detail::copy_data_.*"], config="openmp"),
+        Request("src/scatter_buildblock/scatter_detection_modelling.cxx", fn=["stir::ScatterSimulation::.*"], config="openmp", files=["/repo/src/scatter_buildblock/.*"]),
         Request("src/scatter_buildblock/cached_single_scatter_integrals.cxx", fn=["stir::ScatterSimulation::.*"], config="openmp"),
     ]
     return r
@@ -450,6 +453,38 @@ def rule_f(ctx, fns):
     return n
 
 
+def rule_g_append_only_table(ctx, fns):
+    """detection_points_vector is appended to under a critical section while other threads index it and hold references
+    to its elements without a lock.  That is only safe if appending never reallocates: whoever empties or replaces the
+    vector must reserve room for all detectors before returning, and appends stop at that size."""
+    n = 0
+    for f in fns:
+        if f.body is None or not f.cfg_raw or f.is_ctor:
+            continue
+        resets = [m for m in f.walk() if (m.k == "CXXMemberCallExpr" and (m.callee or "").split("::")[-1] in ("clear", "swap", "resize", "shrink_to_fit") and "detection_points_vector" in key(m, True)) or (m.k in ("BinaryOperator", "CXXOperatorCallExpr") and m.op == "=" and key(m.c[0], True) == "this.detection_points_vector")]
+        if not resets:
+            continue
+        cfg = CFG(f)
+
+        def is_reserve(x):
+            return x.k == "CXXMemberCallExpr" and (x.callee or "").endswith("vector::reserve") and key(x.c[0], True) == "this.detection_points_vector" and "total_detectors" in key(x, True)
+
+        w = cfg.must_pass_before_exit([r for r in resets if r.i in cfg.pos], is_reserve)
+        ctx.ob("C18.g-append-only-table", f.qn + "(" + f.sig[:30] + ")", "reserve-after-reset", w is None, f.where(), "after emptying detection_points_vector its capacity is reserved for total_detectors on every path" if w is None else "detection_points_vector is emptied/replaced and a path returns without reserve(total_detectors): a later push_back under the critical section reallocates while other threads hold references")
+        n += 1
+    for f in fns:
+        if f.short == "find_in_detection_points_vector" and f.cfg_raw:
+            cfg = CFG(f)
+            pb = [c for c in f.calls() if (c.callee or "").endswith("vector::push_back") and "detection_points_vector" in key(c, True)]
+            for i, c in enumerate(pb):
+                crit = any(a.get("omp") == "critical" for a in omp_anc(c))
+                facts = cfg.facts_at(c)
+                capped = any(tv is False and k.startswith("(== ") and "detection_points_vector.size()" in k and "total_detectors" in k for k, tv, _r in facts)
+                ctx.ob("C18.g-append-only-table", f.qn, "append-in-critical-below-capacity@%d" % i, crit and capped, c.where(), "push_back inside the critical section and only while size() != total_detectors (error otherwise)" if crit and capped else "append outside critical=%s / without the size()==total_detectors stop=%s" % (not crit, not capped))
+                n += 1
+    return n
+
+
 def run(ctx):
     ctx.explanation = (
         "OpenMP configuration of the sources (the baseline build has STIR_OPENMP=OFF, so no test executes this code). Decides: "
@@ -484,8 +519,12 @@ def run(ctx):
     ctx.stats["parallel_regions"] = nreg
     if nreg < 14:
         ctx.fail_broken("only %d parallel regions found in the region units (14 confirmed by hand)" % nreg)
-    rule_e(ctx, uniq(units[-3].functions), uniq(units[-2].functions))
+    rule_e(ctx, uniq(units[-4].functions), uniq(units[-3].functions))
     rule_f(ctx, uniq(units[-1].functions))
+    scat = uniq([f for u in units for f in u.functions if f.cls == "stir::ScatterSimulation"])
+    ng = rule_g_append_only_table(ctx, scat)
+    if ng < 2:
+        ctx.fail_broken("append-only table rule matched %d sites (2 confirmed by hand)" % ng)
     ctx.require_count("C18.a-lazy-init", 25)
     ctx.require_count("C18.b-cache-lock", 5)
     ctx.require_count("C18.c-shared-writes", 6)
